@@ -40,6 +40,10 @@ def cases(tier, seed, PROP):
         # reference <-> date-time) -- the second file must carry what is assigned now
         for k in range(60 if tier == 'quick' else 1500):
             yield {'stratum': 'reassign-after-write', 'index': k, 'kind': 'rewrite'}
+    if PROP in ('C07', 'C09'):
+        # the first call for a (type, set name) is rejected, repeated with valid values, and the object is referred to
+        for k in range(60 if tier == 'quick' else 1200):
+            yield {'stratum': 'retry-after-rejected-call', 'index': k, 'kind': 'retry'}
     if PROP == 'C07':
         yield {'stratum': 'kf-regression', 'index': 0, 'kind': 'kf-c07-across-sets'}
         # identities changed between two writes (rename, another origin): references must follow
@@ -53,7 +57,29 @@ def cases(tier, seed, PROP):
             yield {'stratum': 'header', 'index': k, 'kind': 'header'}
 
 
+VALUELESS = [None, 'omit', {'$setup': {}, 'route': 'dict'}, {'$setup': {}, 'route': 'AttrSetup'},
+             {'$setup': {'value': None}, 'route': 'AttrSetup'}]     # (a dict {'value': None} is refused by add_origin)
+
+
 def build_spec(case, PROP, r):
+    sp = _build_spec(case, PROP, r)
+    if PROP in ('C05', 'C09') and case['kind'] in ('random', 'header', 'graph', 'setnames'):
+        # the origin's FILE-SET-NUMBER / CREATION-TIME left to the library, in every way of "not giving a value"
+        r2 = gen.rng(case.get('seed', 0), PROP, case['stratum'] + '/origin-defaults', case['index'])
+        for op in sp['ops']:
+            if op['op'] == 'origin':
+                for kw, p in (('file_set_number', 0.3), ('creation_time', 0.15)):
+                    if r2.random() < p:
+                        form = r2.choice(VALUELESS)
+                        if form == 'omit':
+                            op['attrs'].pop(kw, None)
+                        else:
+                            op['attrs'][kw] = form
+                        op['valueless_' + kw] = True
+    return sp
+
+
+def _build_spec(case, PROP, r):
     from vf import metagen
     avoid = metagen.default_avoid()
     k = case['kind']
@@ -76,6 +102,43 @@ def build_spec(case, PROP, r):
             sp['ops'].append({'op': 'comment', 'name': 'CM-NA', 'attrs': {'text': ['ascii', txt]}})
         else:
             sp['ops'].append({'op': 'zone', 'name': 'Z-NA', 'set_name': 'SET-' + txt, 'attrs': {}})
+        return sp
+    if k == 'retry':
+        from vf.checks import c20
+        pool = ['zone', 'axis', 'long_name', 'equipment', 'tool', 'parameter', 'computation', 'comment', 'message', 'process',
+                'calibration_coefficient', 'calibration_measurement', 'well_reference_point', 'path', 'splice', 'no_format']
+        ts = r.sample(pool, r.choice([1, 2, 3]))
+        sp = metagen.meta_spec(r, avoid=avoid, n_objects=r.choice([0, 2, 4]), later_p=0.0,
+                               types=[t for t in ['zone', 'axis', 'equipment', 'comment', 'long_name', 'group'] if t not in ts or r.random() < 0.3])
+        for t in ts:
+            refs = {}
+            for i, o in enumerate(sp['ops']):
+                if o['op'] in schema.TYPES:
+                    refs.setdefault(o['op'], []).append(i)
+            bad = None
+            for rk in r.sample(['wrong-type', 'outside-enum', 'non-numeric', 'unknown-keyword', 'wrong-ref-class'], 5):
+                bad = c20.bad_op(r, t, rk, refs, sp['ops'])
+                if isinstance(bad, dict):
+                    break
+            if not isinstance(bad, dict):
+                continue
+            bad['lf'] = 0
+            bad['expect'] = 'reject'
+            sn = bad.get('set_name')
+            sp['ops'].append(bad)
+            for j in range(r.choice([1, 1, 2])):
+                good = {'op': t, 'name': r.choice([bad['name'], f'RETRIED-{t}-{j}']), 'attrs': {}, 'lf': 0}
+                if sn:
+                    good['set_name'] = sn
+                sp['ops'].append(good)
+                gi = len(sp['ops']) - 1
+                sp['ops'].append({'op': 'group', 'name': f'REFERS-TO-{t}-{j}', 'attrs': {'object_list': [{'$ref': gi}]}, 'lf': 0})
+                if t == 'zone':
+                    sp['ops'].append({'op': 'parameter', 'name': f'P-{j}', 'attrs': {'zones': [{'$ref': gi}], 'values': [1.5]}, 'lf': 0})
+                elif t == 'axis':
+                    sp['ops'].append({'op': 'computation', 'name': f'C-{j}', 'attrs': {'axis': [{'$ref': gi}]}, 'lf': 0})
+                elif t == 'no_format':
+                    sp['ops'].append(gen.nf_data_op(gi, b'payload after a rejected call'))
         return sp
     if k == 'setnames':
         sp = metagen.meta_spec(r, avoid=avoid, n_objects=r.choice([0, 3]), later_p=0.0)
@@ -324,6 +387,18 @@ def run_case(case, PROP):
         if run.built and run.built.error is None else []
     for rj in rejected:
         bump('op-rejected:%s:%s:%s' % rj)
+    for op in sp['ops']:
+        if op.get('valueless_file_set_number') and run.data is not None:
+            bump('origin-file-set-number-left-to-library')
+        if op.get('valueless_creation_time') and run.data is not None:
+            bump('origin-creation-time-left-to-library')
+    if case['kind'] == 'retry' and rejected and run.data is not None:
+        bump('retried-after-rejected-call')
+    if case['kind'] == 'setnames' and run.data is not None:
+        if any(o.get('set_name') == '' for o in sp['ops']):
+            bump('empty-set-name')
+        if any(o['op'] == 'rename_set' for o in sp['ops']):
+            bump('set-renamed-after-creation')
     if run.data is None:
         bump('write-raised:%s:%s' % (run.wout[1], run.wout[2][:60]))
         return {'evals': 0, 'violations': [], 'obs': obs, 'sigs': [], 'sample': None}
